@@ -49,7 +49,13 @@ async fn main() {
     // third fixture: the same project as the first, but watchexec is started from a SUBDIRECTORY of the project origin (the probes lie
     // outside the working directory)
     std::fs::create_dir_all(fx.join("proj").join("app")).unwrap();
-    for (gc, pname, sub) in [(0, "proj", ""), (1, "projb", ""), (2, "proj", "app"), (3, "projc", "")] { let proj = fx.join(pname); std::env::set_current_dir(if sub.is_empty() { proj.clone() } else { proj.join(sub) }).unwrap();
+    // fifth fixture: the user's home directory lies INSIDE the project origin (a dotfiles-style repository, watchexec started from ~): the
+    // global ignore files are stored under the origin, yet they are global sources — `--no-project-ignore` does not name them
+    std::fs::create_dir_all(fx.join("projd/.git")).unwrap(); std::fs::create_dir_all(fx.join("projd/me/.config/watchexec")).unwrap();
+    std::fs::write(fx.join("projd/.gitignore"), "*.pv\n").unwrap(); std::fs::write(fx.join("projd/.ignore"), "*.pg\n").unwrap();
+    std::fs::write(fx.join("projd/me/.gitignore"), "*.gg\n").unwrap(); std::fs::write(fx.join("projd/me/.config/watchexec/ignore"), "*.ga\n").unwrap();
+    for (gc, pname, sub) in [(0, "proj", ""), (1, "projb", ""), (2, "proj", "app"), (3, "projc", ""), (4, "projd", "")] { let proj = fx.join(pname); std::env::set_current_dir(if sub.is_empty() { proj.clone() } else { proj.join(sub) }).unwrap();
+    if gc == 4 { std::env::set_var("HOME", proj.join("me")); std::env::set_var("XDG_CONFIG_HOME", proj.join("me/.config")); }
     for mask in 0..64u32 {
         let on: Vec<bool> = (0..6).map(|i| mask & (1 << i) != 0).collect();
         let mut rows = vec![];
